@@ -31,9 +31,11 @@ type JobConfigScenario struct {
 	Kinds    []string  `json:"kinds"`    // scheduled | adhoc
 	Delete   bool      `json:"delete"`   // Jobs may be deleted (TTL clean-up / user)
 	Budget   mc.Budget `json:"budget"`
+	// Tombstones: deletions are only noticed by a relist (handlers get DeletedFinalStateUnknown).
+	Tombstones bool `json:"tombstones,omitempty"`
 	// ColdStart: after a restart the JobConfig and Job informers list one after the other (DESIGN.md 10.9).
 	ColdStart bool `json:"coldStart,omitempty"`
-	Preexist int       `json:"preexist"` // Jobs (started) existing before the controller starts
+	Preexist  int  `json:"preexist"` // Jobs (started) existing before the controller starts
 }
 
 type jcMem struct {
@@ -63,6 +65,7 @@ func newJobConfigWorld(scn JobConfigScenario) *jobConfigWorld {
 	b := mc.NewBase(map[configv1alpha1.ConfigName]runtime.Object{}, true)
 	w.Base = b
 	b.Budget = scn.Budget
+	b.Tombstones = scn.Tombstones
 	if scn.ColdStart {
 		b.ColdStart, b.ColdResources, b.ResyncMode = true, []string{sim.JobConfigs, sim.Jobs}, true
 	}
